@@ -12,7 +12,18 @@ use crate::runner::{Ctx, Part, Tier, Verdict};
 pub enum Node {
     /// plain text marker
     Mark,
-    For { els: bool, filter: bool, recursive: bool, body: Vec<Node>, else_body: Vec<Node> },
+    For {
+        els: bool,
+        filter: bool,
+        recursive: bool,
+        body: Vec<Node>,
+        else_body: Vec<Node>,
+        /// how a recursive loop calls itself at the end of its body: 0 not at all, 1 `{{ loop(x) }}`,
+        /// 2 the result assigned and printed, 3 the result filtered, 4 / 5 the result used as a
+        /// value with a lazy argument of unknown length that is empty / not empty
+        #[serde(default)]
+        rec_call: u8,
+    },
     With(Vec<Node>),
     SetBlock(Vec<Node>),
     FilterBlock(Vec<Node>),
@@ -123,7 +134,7 @@ impl Builder {
                     });
                 }
             }
-            Node::For { els, filter, recursive, body, else_body } => {
+            Node::For { els, filter, recursive, body, else_body, rec_call } => {
                 let iter = self.list();
                 let filter = if *filter { Some(self.cond()) } else { None };
                 let was = std::mem::replace(&mut self.in_loop, true);
@@ -133,6 +144,27 @@ impl Builder {
                 }];
                 b.push(inner_mark(k, "f"));
                 b.extend(self.body(body));
+                if *recursive && *rec_call > 0 {
+                    let x = Expr::var(&format!("x{k}"));
+                    let call = |arg: Expr| Expr::Call(Box::new(Expr::var("loop")), vec![Arg::Pos(arg)]);
+                    let rec: Vec<Stmt> = match *rec_call % 6 {
+                        1 => vec![Stmt::Emit(call(x.clone()))],
+                        2 => vec![Stmt::Set { target: Target::Name(format!("r{k}")), value: call(x.clone()) }, Stmt::Emit(Expr::var(&format!("r{k}")))],
+                        3 => vec![Stmt::Emit(call(x.clone()).filter("upper", vec![]))],
+                        // `a|chain(a|reverse)` is a lazy iterable of unknown length; over an empty slice it
+                        // yields nothing
+                        4 => {
+                            let empty = Expr::Slice(Box::new(x.clone()), Some(Box::new(Expr::int(9))), None, None);
+                            let arg = empty.clone().filter("chain", vec![Arg::Pos(empty.filter("reverse", vec![]))]);
+                            vec![Stmt::Emit(call(arg).filter("string", vec![]))]
+                        }
+                        _ => {
+                            let arg = x.clone().filter("chain", vec![Arg::Pos(x.clone().filter("reverse", vec![]))]);
+                            vec![Stmt::Emit(call(arg).filter("string", vec![]))]
+                        }
+                    };
+                    b.push(Stmt::If { branches: vec![(Expr::Test(Box::new(x), "sequence".into(), vec![], false), rec)], else_: None });
+                }
                 self.in_loop = was;
                 // the else block is outside of the loop
                 let e = if *els { Some(self.body(else_body)) } else { None };
@@ -368,8 +400,9 @@ fn node(depth: u32) -> BoxedStrategy<Node> {
     let sub = || nodes(depth - 1);
     prop_oneof![
         4 => leaf,
-        4 => (any::<bool>(), prop::bool::weighted(0.2), prop::bool::weighted(0.15), sub(), sub())
-            .prop_map(|(els, filter, recursive, body, else_body)| Node::For { els, filter, recursive, body, else_body }),
+        4 => (any::<bool>(), prop::bool::weighted(0.2), prop::bool::weighted(0.3), sub(), sub())
+            .prop_flat_map(|(els, filter, recursive, body, else_body)| (Just((els, filter, recursive, body, else_body)), 0u8..6))
+            .prop_map(|((els, filter, recursive, body, else_body), rec_call)| Node::For { els, filter, recursive, body, else_body, rec_call }),
         2 => sub().prop_map(Node::With),
         2 => sub().prop_map(Node::SetBlock),
         2 => sub().prop_map(Node::FilterBlock),
@@ -423,6 +456,17 @@ impl Part for Scopes {
         for n in &c.nodes {
             seen = seen || include_unshielded(std::slice::from_ref(n));
             leak_possible.push(seen);
+        }
+        fn has_rec(nodes: &[Node]) -> bool {
+            nodes.iter().any(|n| match n {
+                Node::For { recursive, rec_call, body, else_body, .. } => (*recursive && *rec_call > 0) || has_rec(body) || has_rec(else_body),
+                Node::With(b) | Node::SetBlock(b) | Node::FilterBlock(b) | Node::AutoEscape(_, b) | Node::MacroCall(b) | Node::CallBlock(b) | Node::Block(b) | Node::BlockBare(b) => has_rec(b),
+                Node::If(a, b) => has_rec(a) || has_rec(b),
+                _ => false,
+            })
+        }
+        if has_rec(&c.nodes) {
+            v.labels.push("recursive_loop_call");
         }
         if contains_include(&c.nodes) && !seen {
             v.labels.push("include_only_inside_scoped_constructs");
